@@ -422,46 +422,65 @@ func (c *Ctx) ruleValuesComplete(rule string) {
 func (c *Ctx) rulePurge(rule string) {
 	c.Rep.rule(rule, "E2+value flow", "Purge closes every removed io.Closer value, and the values it closes come from the operation that removes them", 2)
 	c.ruleValuesComplete(rule)
+	// value identity through the interpreter: what Values() returned is the token "snapshot", an element of it
+	// "snapshot[]" (range or index), a type assertion keeps the token; helpers (cancelAll(values)) are inlined
+	var reachesCloser func(f *Func, depth int) bool
+	reachesCloser = func(f *Func, depth int) bool {
+		if c.P.containsCall(f, kCloserI) {
+			return true
+		}
+		if depth == 0 {
+			return false
+		}
+		for _, cs := range c.P.calls(f) {
+			if g := c.P.byObj[cs.Callee.Key]; g != nil && g.Lib && g != f && g.Pkg.PkgPath == modPath && reachesCloser(g, depth-1) {
+				return true
+			}
+		}
+		return false
+	}
 	for _, f := range filterPkg(c.P.funcsCalling(kPurgeI), modPath) {
-		if !c.P.containsCall(f, kValuesI) && !c.P.containsCall(f, kCloserI) {
+		if !c.P.containsCall(f, kValuesI) && !reachesCloser(f, 2) {
 			// a thin forwarder (persistentQueue.Purge → queue.Purge is a method call on the embedded type, not IBaseQueue.Purge)
 			continue
 		}
-		info := f.Info()
-		// the slice ranged over when closing
-		var src string
-		closes := false
-		ast.Inspect(f.Body, func(n ast.Node) bool {
-			rs, ok := n.(*ast.RangeStmt)
-			if !ok {
-				return true
-			}
-			hasClose := false
-			ast.Inspect(rs.Body, func(m ast.Node) bool {
-				if call, ok := m.(*ast.CallExpr); ok && resolveCallee(info, call).Key == kCloserI {
-					hasClose = true
+		sr := &seqRule{c: c, rule: rule}
+		sr.relevant = func(g *Func) bool { return reachesCloser(g, 2) }
+		sr.classify = func(fr *Frame, call *ast.CallExpr, ce *Callee, args []Value) *callEvent {
+			switch ce.Key {
+			case kValuesI:
+				return &callEvent{Name: "values", Atomic: true, Results: tok("snapshot")}
+			case kPurgeI:
+				return &callEvent{Name: "qpurge", Atomic: true}
+			case kCloserI:
+				n := "other"
+				if ce.RecvVal.Kind == VTok {
+					n = ce.RecvVal.S
 				}
-				return true
-			})
-			if !hasClose {
-				return true
+				return &callEvent{Name: "close:" + n, Atomic: true}
 			}
-			closes = true
-			if o := rootIdent(info, rs.X); o != nil {
-				assignedOnlyFrom(f, o, func(rhs ast.Expr, idx, cnt int) bool {
-					if call, ok := ast.Unparen(rhs).(*ast.CallExpr); ok {
-						src = resolveCallee(info, call).Key
+			if g := c.P.byObj[ce.Key]; g != nil && g.Lib && reachesCloser(g, 2) {
+				return nil // inline
+			}
+			return &callEvent{Atomic: true}
+		}
+		closesSnapshot, closesOther, leaves := false, false, false
+		for _, sg := range sr.segments(f) {
+			for _, sym := range sg.Syms {
+				if sym == "close:snapshot[]" {
+					closesSnapshot = true
+					if sg.Kind == "iter" && (sg.Exit || sg.How == "exit" || sg.has("break")) {
+						leaves = true
 					}
-					return true
-				})
+				} else if strings.HasPrefix(sym, "close:") {
+					closesOther = true
+				}
 			}
-			return true
-		})
-		c.Rep.check(closes, rule, f.Short(), "Purge does not close the removed values", c.P.pos(f.Body), "every removed io.Closer is closed",
-			"Purge removes pending jobs without closing them: their waiters are never released")
-		if closes {
-			atomicDrain := src != "" && src != kValuesI
-			c.Rep.check(atomicDrain, rule, f.Short(), "Values() then Purge(): two critical sections", c.P.pos(f.Body), "the closed values come from the removing operation",
+		}
+		c.Rep.check((closesSnapshot || closesOther) && !leaves, rule, f.Short(), "Purge does not close the removed values", c.P.pos(f.Body), "every removed io.Closer is closed",
+			"Purge removes pending jobs without closing every one of them (no Close on the removed values, or the closing loop is left early): their waiters are never released")
+		if closesSnapshot {
+			c.Rep.check(false, rule, f.Short(), "Values() then Purge(): two critical sections", c.P.pos(f.Body), "the closed values come from the removing operation",
 				"Purge closes the snapshot returned by Values() and then calls Purge() separately: a job enqueued between the two is removed from the queue but never closed (its Wait() hangs, it never runs)")
 		}
 	}
